@@ -49,6 +49,32 @@ def register(w):
                'unchanged(self.parent.bound) and unchanged(self.parent.globals) and unchanged(self.parent.nonlocals))',
                'implies(self.parent is not None, unchanged(self.parent.deleted) and unchanged(self.parent.isolated_names))']))
 
+  # copy_from / merge_from, ROOT case (a scope without parent; the recursive step over the parent chain is the same
+  # statement one level up and is not proved here -- its frame needs a chain predicate): the seven activity
+  # containers are replaced by fresh copies of / grow by the other scope's; the DECLARATION sets (globals,
+  # nonlocals) are not activity of a block and are never reset (C08: "declared global or nonlocal ... exactly those
+  # CPython's compiler assigns": a declaration seen once holds for the whole function) -- frame.
+  COPIED = ['isolated_names', 'modified', 'read', 'deleted', 'bound', 'annotations']
+  w.add(Contract(
+      S + 'copy_from', serves=['C08'], asserts='raise', types={'other': 'Scope'},
+      pure={},
+      requires=['not self.is_final', 'self.parent is None', 'other is not self', 'ScopeOwnsSets(self)', 'ScopeOwnsSets(other)'],
+      modifies=['self.%s' % f for f in COPIED] + ['self.params'],
+      ensures=['fresh(self.%s) and seteq(self.%s, old(other.%s))' % (f, f, f) for f in COPIED]
+              + ['fresh(self.params)',
+                 'forall(lambda k: (k in self.params) == old(k in other.params), "QN")',
+                 'unchanged(self.globals)', 'unchanged(self.nonlocals)']
+              + ['unchanged(other.%s)' % f for f in SETS]))
+  w.add(Contract(
+      S + 'merge_from', serves=['C08'], asserts='raise', types={'other': 'Scope'},
+      requires=['not self.is_final', 'self.parent is None', 'other is not self', 'ScopeOwnsSets(self)', 'ScopeOwnsSets(other)',
+                'distinct((%s, %s))' % (own, ', '.join('other.%s' % f for f in SETS)), 'self.params is not other.params'],
+      modifies=['contents(self.%s)' % f for f in COPIED] + ['contents(self.params)'],
+      ensures=['seteq(self.%s, old(self.%s) | old(other.%s))' % (f, f, f) for f in COPIED]
+              + ['forall(lambda k: (k in self.params) == (old(k in self.params) or old(k in other.params)), "QN")',
+                 'unchanged(self.globals)', 'unchanged(self.nonlocals)']
+              + ['unchanged(other.%s)' % f for f in SETS]))
+
   # --- derived views -------------------------------------------------------------------------------
   # `referenced` is what the Namer reserves (C11): every name read OR bound in the scope or an ancestor.
   # Referenced(s) is the specification function defined by the unfolding
